@@ -216,7 +216,8 @@ theorem update_user_record_effect (env : Env H) (fs : List Field) (st : State H)
     (hn1 : fs.length ≠ 1) (lg nm : Bytes) (hlg : getField 105 fs = some lg) (hnm : getField 102 fs = some nm)
     (acc : Account H)
     (hacc : st.mem.get (accountToUpdate fs (obfuscate lg)) = some acc)
-    (hleg : LegalLogin (obfuscate lg)) (hlen : (obfuscate lg ++ yamlExt).length ≤ env.nameMax) :
+    (hleg : LegalLogin (obfuscate lg)) (hlen : (obfuscate lg ++ yamlExt).length ≤ env.nameMax)
+    (hfree : acc.login ≠ obfuscate lg → st.mem.get (obfuscate lg) = none) :
     let n := obfuscate lg
     let a' : Account H := { login := n, name := nm,
                             hash := pwUpdate env acc.hash (getField 106 fs),
@@ -259,7 +260,7 @@ theorem update_user_record_effect (env : Env H) (fs : List Field) (st : State H)
     · intro h; exact absurd e h
     · intro k hk _
       simp [AMap.get_set, show a'.login = n from rfl, hk]
-  · obtain ⟨st', hu, hm, hdk⟩ := update_rename env a0 n st acc haleg hleg e hd hlen
+  · obtain ⟨st', hu, hm, hdk⟩ := update_rename env a0 n st acc haleg hleg e (hfree e) hd hlen
     rw [hu] at hr
     simp only at hr
     rw [hr]
@@ -275,6 +276,29 @@ theorem update_user_record_effect (env : Env H) (fs : List Field) (st : State H)
       · rw [hdk]; simp [hne, show a0.login = acc.login from rfl]
     · intro k hk1 hk2
       rw [hm]; simp [hk1, show a0.login = acc.login from rfl, hk2]
+
+/-- A rename sub-record whose target login already exists is refused: the request ends without a
+    reply and NOTHING changes — both accounts survive in memory and on disk (fix 5d2c023). -/
+theorem update_user_rename_onto_existing (env : Env H) (fs : List Field) (st : State H)
+    (hn1 : fs.length ≠ 1) (lg nm : Bytes) (hlg : getField 105 fs = some lg) (hnm : getField 102 fs = some nm)
+    (acc : Account H) (hacc : st.mem.get (accountToUpdate fs (obfuscate lg)) = some acc)
+    (hne : acc.login ≠ obfuscate lg) (hex : (st.mem.get (obfuscate lg)).isSome) :
+    updateRec env fs st = (st, some .silent) := by
+  let a0 : Account H := { acc with
+      hash := pwUpdate env acc.hash (getField 106 fs),
+      access := match getField 110 fs with
+        | some ac => copyAccess acc.access ac
+        | none => acc.access,
+      name := nm }
+  have hu := update_rename_existing env a0 (obfuscate lg) st hne hex
+  have hr : updateRec env fs st = (match update env a0 (obfuscate lg) st with
+      | (true, st') => (st', none)
+      | (false, st') => (st', some .silent)) := by
+    unfold updateRec
+    rw [if_neg hn1]
+    simp only [hlg, hnm, hacc]
+    rfl
+  rw [hr, hu]
 
 /-- A deleted login is gone from memory, from the listing and from disk, and can no longer log in
     (delete-user 351; the one-field sub-record of update-user behaves the same way). -/
